@@ -179,6 +179,12 @@ def expand_grammar(G):
         from .c20 import rename_expr, rename_python
         n_inst = next(counter)
         fresh = {p: '%s__i%d' % (p, n_inst) for p in params}
+        if t[0] == 'rule':
+            # the body's own let names too: inlined into the caller's function they would otherwise
+            # shadow (and, by the known function-scope mechanism, overwrite) a call-site name
+            for x in gast.walk(t[3]):
+                if x[0] == 'let' and x[1] not in fresh:
+                    fresh[x[1]] = '%s__i%d' % (x[1], n_inst)
         bound = {fresh[p]: a for p, a in bound.items()}
         if t[0] == 'rule':
             t = ('rule', t[1], [fresh[p] for p in params], rename_expr(t[3], fresh))
